@@ -94,6 +94,10 @@ def sem_strings(r: random.Random, n: int) -> list[str]:
         for pre in [None] + SEM_IDS[:8]:
             for b in SEM_BUILDS[:2]:
                 out.append(rel + (f"-{pre}" if pre is not None else "") + (f"+{b}" if b else ""))
+    # multi-part tags with upper-case letters are kept as written (no case folding): every spelling of the operand must agree
+    for rel in ("1.0.0", "10.11.100"):
+        for pre in ("Alpha.Beta", "rc.9.Alpha1", "RC.1.x", "X-Y", "alpha.Beta-2", "A.B.C"):
+            out.append(f"{rel}-{pre}")
     for _ in range(n):
         rel = ".".join(str(r.choice(NUMS)) for _ in range(3))
         pre = r.choice([None, None] + SEM_IDS)
